@@ -10,13 +10,18 @@ SPEC = {
         {'pkg': 'commit/merkleroot', 'pkgname': 'merkleroot', 'src': 'harness/commit/merkleroot/c04_test.go', 'test': 'TestVerif_C04_state', 'fakes': True,
          'sinks': {'C04_state': 'st_judge'}, 'n': {'quick': 800, 'thorough': 30000}},
     ],
-    'rule': 'C04_transmit / C04_final: simulated DON histories of 36 rounds with 4 real commit.Plugin instances over one shared world '
-            '(two source chains growing 0-3 messages per round, finality lagging behind the unconfirmed on-ramp latest, per-oracle reader lag 0-2, '
-            'per-round NextSeqNum / MsgsBetweenSeqNums failures, lost observations, random leader, destination f = 2 in one history of eight (class fdest2: f_dest != f_k, F26), optional Byzantine oracle 3 that alters roots / '
-            'off-ramp numbers / on-ramp numbers / intervals, tree size 2 / 4 / 256, attested reports lost, delayed 0-5 rounds, sent by two '
-            'transmitters, mined one step late); one case per ShouldTransmitAcceptedReport evaluation (roots with ground-truth root bit, cursor, '
+    'rule': 'C04_transmit / C04_final: simulated DON histories with real commit.Plugin instances over one shared world; the DON shape is drawn per history: '
+            'n4 (3 histories of 5; 36 rounds): 4 oracles, F = 1, f = 1 on every chain, destination read by all, a source chain possibly not by one oracle, destination f = 2 in class fdest2 (f_dest != f_k, F26), optional Byzantine oracle 3; '
+            'n7 / n10 (1 of 5 each; 24 / 18 rounds): 7 / 10 oracles, F = 2 / 3, a role DON with a small destination committee (f_dest = 1, read by oracles 0..3 only) and larger source committees (f_src in {1,2} / {2,3}, at least one '
+            'f_src > f_dest, read by 3*f_src+1 .. N oracles, so some oracles lack the destination and some honest transmitters lack a source), 0 .. F Byzantine oracles (at most f_dest among the destination readers, at most f_src among '
+            'the readers of each source) that COLLUDE: per round all of them forge the same thing — the same root for the selected interval(s), an advanced on-ramp or off-ramp number, silence — or lie on their own (altered roots / numbers / intervals, '
+            'multi-vote shapes repeating a forged entry 2f+1 times non-adjacently); reader storms in building rounds cut the honest source reads of one selected chain down to 0, 2*f_dest, 2*f_dest+1, 2*f_src or 2*f_src+1 readers, and in attack rounds '
+            '(a selected chain with >= 2*f_dest+1 colluding readers) below 2*f_dest+1 while all colluders report the same forged root. '
+            'World: two source chains growing 0-3 messages per round, finality lagging behind the unconfirmed on-ramp latest, per-oracle reader lag 0-2, '
+            'per-round NextSeqNum / MsgsBetweenSeqNums failures (scripted error kinds rotate), lost observations, random leader, tree size 2 / 4 / 256, attested reports lost, delayed 0-5 rounds, sent by two '
+            'transmitters, mined one step late; outcomes computed by the honest destination readers 0,1,2 who also take the transmission turns; one case per ShouldTransmitAcceptedReport evaluation (roots with ground-truth root bit, cursor, '
             'reader failure) and one per history (all landed reports, final off-ramp content, outcome divergences between the 3 honest oracles). '
-            'C04_round: every round of those histories as (previous outcome, query, decoded attributed observations) -> outcome, judged against the composition of the C01 and C03 models (whole-plugin wiring of commit.Plugin.Outcome). C04_state: ValidateMerkleRootsState on generated roots x cursors (start = / ahead of / behind the cursor, duplicate chains, '
+            'C04_round: every round of those histories as (F of that history, previous outcome, query, decoded attributed observations with their fChain maps) -> outcome, judged against the composition of the C01 and C03 models (whole-plugin wiring of commit.Plugin.Outcome). C04_state: ValidateMerkleRootsState on generated roots x cursors (start = / ahead of / behind the cursor, duplicate chains, '
             'reader error, short and long answers). non-trivial = report has roots / history landed >= 2 reports; distinct by full input',
     'trusted': ['the off-ramp contract model (OffRamp.commit: root accepted iff minSeqNr == stored next and min <= max; cursor := max+1; any failing root reverts the report)',
                 'libocr: every honest oracle gets the same validated observation list; attested reports are only handed to ShouldAccept/ShouldTransmit',
@@ -36,8 +41,8 @@ SPEC = {
                   'for the unchanged-cursor reading); C04_liveness_true_root (that root is the true merkle root, composition with C04_agreed_root_true); C04_liveness_nonvacuous '
                   '(4 oracles, one Byzantine: hypotheses met, bound (max+2)+2 reached at max = 0); C04_liveness_unfixed_refuted (F26, repaired by fixes/F26.patch: with the off-ramp '
                   'numbers agreed at the source chain f — all 7 oracles honest, identical views, 4 destination readers, f_dest = 1, f_k = 2 — no interval of chain k was ever selected; '
-                  'the repaired processor selects it). Correspondence: 4 real plugin instances run whole histories (observation -> validation -> outcome -> reports -> accept -> '
-                  'transmit -> land, one history in eight with f_dest = 2 != f_k = 1) and every transmit verdict and final off-ramp state is judged against the model and the '
+                  'the repaired processor selects it). Correspondence: 4, 7 or 10 real plugin instances (per-history DON shape: N, F, per-chain f and reader sets, colluding Byzantine oracles) run whole histories (observation -> validation -> outcome -> reports -> accept -> '
+                  'transmit -> land; f_dest < f_src in the 7- and 10-oracle histories, f_dest > f_k in class fdest2) and every transmit verdict and final off-ramp state is judged against the model and the '
                   'executable property; the round function the liveness theorems are stated over is the one judged by sink C04_round.',
     'level_note': 'Liveness hypotheses (all in the statement, each granted by "2f+1 honest readers of the chain concerned share the view"): every non-retry selecting / building round contains a '
                   'same-view honest quorum (a round whose leader withholds or sets the retry flag outside the building state has none), chain k has pending messages, selected intervals are readable '
